@@ -85,6 +85,16 @@ TEMPLATES = [
     ('MAP over map swaps the value pair', ['map string (pair nat int)'], [P('MAP', [P('CDR'), P('UNPAIR'), P('SWAP'), P('PAIR')])], {'map_retypes': True}),
     ('MAP over map wraps the value', ['map int nat'], [P('MAP', [P('CDR'), P('SOME')])], {'map_retypes': True}),
     ('MAP over map with pair keys', ['map (pair int nat) int'], [P('MAP', [P('UNPAIR'), P('CAR'), P('ADD')])]),
+    ('GET on map of strings', ['int', 'map int string'], [P('GET')]),
+    ('GET on map of bools', ['nat', 'map nat bool'], [P('GET')]),
+    ('GET on map of lists', ['int', 'map int (list int)'], [P('GET')]),
+    ('GET on map of options', ['int', 'map int (option nat)'], [P('GET')]),
+    ('MEM on map', ['int', 'map int string'], [P('MEM')]),
+    ('MEM on set', ['int', 'set int'], [P('MEM')]),
+    ('UPDATE on map', ['int', 'option string', 'map int string'], [P('UPDATE')]),
+    ('UPDATE on set', ['nat', 'bool', 'set nat'], [P('UPDATE')]),
+    ('GET_AND_UPDATE on map', ['int', 'option bool', 'map int bool'], [P('GET_AND_UPDATE')]),
+    ('EMPTY_MAP then UPDATE then GET', ['string', 'int'], [P('SOME'), P('SWAP'), P('DUP'), P('DUG', I(2)), P('EMPTY_MAP', ty('int'), ty('string')), P('DUG', I(2)), P('UPDATE'), P('SWAP'), P('GET')]),
     ('ITER over map', ['map int int', 'int'], [P('ITER', [P('UNPAIR'), P('ADD'), P('ADD')])]),
     ('ITER over set', ['set int', 'int'], [P('ITER', [P('ADD')])]),
     ('LAMBDA;EXEC', ['int'], [P('LAMBDA', ty('int'), ty('int'), [push('int', I(1)), P('ADD')]), P('SWAP'), P('EXEC')]),
